@@ -56,13 +56,13 @@ def grav_cases(ctx, rebound, ncases):
     clib = rebound.clibrebound
     cases = []
     for k in range(ncases):
-        kind = ["v1", "v1", "v1tp", "v2"][k % 4]
+        kind = ["v1", "v1", "v1tp", "v2", "v2tp"][k % 5]
         n = rng.choice([2, 2, 3, 3, 4, 5, 6, 9])
         ms, pos = gen_cloud(rng, n)
         G = rng.choice([1.0, 6.674e-11, 39.47841760435743, rng.uniform(0.5, 2)])
         ign = rng.choice([0, 0, 1, 2])
-        nact = rng.choice([n, n, rng.randint(1, n)]) if kind != "v2" else n
-        tp = rng.random() < 0.3 if kind != "v2" else False
+        nact = rng.choice([n, n, rng.randint(1, n)]) if kind not in ("v2", "v2tp") else n
+        tp = rng.random() < 0.3 if kind not in ("v2", "v2tp") else False
         sim = rebound.Simulation()
         sim.G = G
         for i in range(n):
@@ -97,6 +97,23 @@ def grav_cases(ctx, rebound, ncases):
             term = "(runVar1tp %s %d %s %s %s %s %s %s %s %d)" % (
                 vlib.fhex(G), ign, vlib.flist(ms), vlib.flist(pos[0]), vlib.flist(pos[1]), vlib.flist(pos[2]),
                 vlib.fhex(dv[0]), vlib.fhex(dv[1]), vlib.fhex(dv[2]), i)
+        elif kind == "v2tp":
+            i = rng.randrange(n)
+            va = sim.add_variation(testparticle=i)
+            vb = sim.add_variation(testparticle=i)
+            same = rng.random() < 0.3
+            vw = sim.add_variation(order=2, first_order=va, first_order_2=va if same else vb, testparticle=i)
+            d3 = {}
+            for nm, vv in (("a", va), ("b", vb), ("w", vw)):
+                d3[nm] = [rng.gauss(0, 1) * 10 ** rng.uniform(-2, 2) for _ in range(3)]
+                vv.particles[0].x, vv.particles[0].y, vv.particles[0].z = d3[nm]
+            if same:
+                d3["b"] = d3["a"]
+            clib.reb_simulation_update_acceleration(ctypes.byref(sim))
+            exp = [vw.particles[0].ax, vw.particles[0].ay, vw.particles[0].az]
+            term = "(runVar2tp %s %s %s %s %s %s %s %d)" % (
+                vlib.fhex(G), vlib.flist(ms), vlib.flist(pos[0]), vlib.flist(pos[1]), vlib.flist(pos[2]),
+                " ".join(vlib.fhex(v) for v in d3["w"]), " ".join(vlib.fhex(v) for v in d3["a"] + d3["b"]), i)
         else:
             va = sim.add_variation()
             vb = sim.add_variation()
@@ -291,8 +308,20 @@ def run(ctx):
     sys.path.insert(0, libdir)
     import rebound
     ctx.regen("translate_derivs.py")
-    proved = ctx.prove("C16", extra_targets=["C16/Run.vo"])
+    proved = ctx.prove("C16", extra_targets=["C16/Run.vo"], timeout=3600)
     table = json.load(open(os.path.join(vlib.BUILD, "c16_derivs_table.json")))
+    # second-order constructors: the generated list of proved lemmas (coq/C16/Deriv2All.v) vs the exported functions
+    src = open(os.path.join(vlib.COQ, "C16", "Deriv2All.v")).read()
+    import re as _re
+    allnames = _re.findall(r"\| N_(\w+?)\.?$", src.split("Definition d2_spec")[0], _re.M)
+    prv = _re.findall(r"N_(\w+)", src.split("Definition d2_proved")[1].split("].")[0])
+    pre = "reb_particle_derivative_"
+    exported = sorted(c[0][len(pre):] for c in table if c[0].startswith(pre) and c[0][len(pre):] not in c16_search.PARAMS)
+    ctx.extra["second_order_constructors_proved"] = sorted(prv)
+    ctx.extra["second_order_constructors_unproved"] = sorted(set(exported) - set(prv))
+    ctx.obligation("C16:Deriv2All lists exactly the exported second-order constructors (%d) and every proved lemma is for one of them"
+                   % len(exported), sorted(allnames) == exported and set(prv) <= set(exported),
+                   "listed %s exported %s" % (sorted(set(allnames) ^ set(exported))[:6], len(exported)))
 
     # ---- correspondence 1: variational force loops
     gc = grav_cases(ctx, rebound, ctx.scale(240, 3000))
@@ -328,8 +357,8 @@ def run(ctx):
         "any N_active <= N (full strength since /repo 09c4229); second order: all particles active, gravity_ignore_terms 0",
         "constructor theorems: sin/cos values and the Pal (p,q) enter as inputs; their dual parts are the chain-rule pairs "
         "(cos u du, -sin u du) and the code's own dp,dq, which pal_implicit shows to be the unique solution of the linearised Kepler system",
-        "truncation-error statements about trajectories (variational flow = derivative of the flow), rescaling, MEGNO/Lyapunov limits "
-        "and second-order constructors are validated by the searcher only",
+        "kepler_tangent ASSUMES the Stiefel chain rule dG_n = G_(n-1) dX + (n G_(n+2) - X G_(n+1))/2 dbeta (true of the exact functions; "
+        "the code evaluates truncated series); truncation-error statements about trajectories, MEGNO/Lyapunov limits are validated only",
     ]
 
 
